@@ -246,6 +246,7 @@ class Engine:
                     self.impls.setdefault(('?' + path + ':' + str(line), None, meth), f)
                     continue
                 self.impls[(ty, base(trait), meth)] = f
+                if base(trait) == 'IdenStatic' and meth in ('prepare', 'unquoted'): self.impls[(ty, 'Iden', meth)] = f
                 continue
             trait = mm.group(1); ty = mm.group(2)
             tb = base(trait) if trait else None
